@@ -875,6 +875,8 @@ class Evaluator:
             return recv[1]
         if name == "unwrap_or" and recv is not None and not is_form(recv) and recv[0] == "none" and len(args) == 1:
             return args[0]
+        if name in ("unwrap_or", "unwrap_or_else", "unwrap", "expect", "unwrap_or_default") and recv is not None and rty.startswith("std::result::Result") and not (not is_form(recv) and recv[0] in ("err", "none", "some")):
+            return recv  # a Result is represented by its Ok payload
         if name in ("map", "and_then") and recv is not None and not is_form(recv) and recv[0] in ("some", "none") and len(n["args"]) == 1:
             if recv[0] == "none":
                 return ("none",)
@@ -888,6 +890,13 @@ class Evaluator:
                 return ("some", r)
         if name in ("is_some", "is_none") and recv is not None and not is_form(recv) and recv[0] in ("some", "none"):
             return ("bool", (recv[0] == "some") == (name == "is_some"))
+        if name in ("map", "and_then") and recv is not None and rty.startswith("std::result::Result") and len(n["args"]) == 1 and n["args"][0].get("k") == "Closure" and not (not is_form(recv) and recv[0] in ("err", "none")):
+            # Result<T, E> is represented by its Ok payload: apply the closure to it
+            cl = n["args"][0]
+            if cl.get("params") and isinstance(cl.get("body"), dict):
+                e2 = dict(env)
+                self._bind(cl["params"][0], recv, e2)
+                return self.eval(cl["body"], e2, st)
         if name == "transpose" and recv is not None and not is_form(recv) and recv[0] in ("some", "none"):
             return recv
         if name == "ok" and recv is not None and (is_form(recv) or recv[0] == "obj"):
